@@ -21,7 +21,7 @@ MOD = "mc.props.C15"
 
 ACTIONS = [
     "full", "mesh_only", "part_only", "sink_only", "value_pred", "box", "level_le_2", "cpu_list_2",
-    "sortby_part", "sortby_sink", "sortby_mesh", "part_only_sortby_names_mesh_too", "sink_only_sortby_names_every_group", "refused_sortby_with_level_cap", "refused_cpu_list_with_box", "mesh_vars", "part_vars", "amr_vars_only",
+    "sortby_part", "sortby_sink", "sortby_mesh", "part_only_sortby_names_mesh_too", "sink_only_sortby_names_every_group", "mesh_pred_matching_nothing", "part_pred_matching_nothing", "refused_sortby_with_level_cap", "refused_cpu_list_with_box", "mesh_vars", "part_vars", "amr_vars_only",
     "hydro_var_only", "slab_y", "slab_x", "box_far_corner", "groups_off_mesh", "refused_predicate_raises", "grav_var_only", "slab_z",
 ]
 
@@ -93,6 +93,11 @@ def action_kwargs(name, out):
     # a sorting request that also names groups this call does not load: it concerns what the call loads
     if name == "part_only_sortby_names_mesh_too":
         return {"select": ["part"], "sortby": {"mesh": "density", "part": "identity"}}
+    # a call that asks for a group and finds nothing for it: the group it leaves is the (empty) result of this call
+    if name == "mesh_pred_matching_nothing":
+        return {"select": {"mesh": {"density": lambda d: d.values > 1e300}}}
+    if name == "part_pred_matching_nothing":
+        return {"select": {"part": {"mass": lambda m: m.values < -1e300}, "mesh": False}}
     if name == "sink_only_sortby_names_every_group":
         return {"select": ["sink"], "sortby": {"mesh": "level", "part": "mass", "sink": "level"}}
     # calls that are rightly refused (after some of the call's settings have been taken into account)
@@ -118,6 +123,19 @@ def action_kwargs(name, out):
     if name == "part_vars":
         return {"select": {"part": ["mass", "identity"]}}
     raise KeyError(name)
+
+
+ALL_GROUPS = ("mesh", "part", "sink")
+
+
+def requested_groups(kwargs):
+    """The groups a load() call addresses, read off its own arguments (not off what the library returns for it)."""
+    sel = kwargs.get("select")
+    if sel is None:
+        return set(ALL_GROUPS)
+    if isinstance(sel, dict):
+        return {g for g in ALL_GROUPS if sel.get(g, True) is not False}
+    return {g for g in ALL_GROUPS if g in sel}
 
 
 class Box:
@@ -232,6 +250,14 @@ class Spec:
         for g in produced:
             model["groups"][g] = want["groups"][g]
         got = C13.snapshot(ds)
+        # a group the call asked for and a fresh dataset does not have afterwards (nothing was found for it): whatever an earlier
+        # call left under that name is not the outcome of this call
+        for g in sorted(requested_groups(action_kwargs(op, self.out)) - produced):
+            if g in model["groups"]:
+                del model["groups"][g]
+                if g in got and got[g]:
+                    problems.append((f"C15:requested-group-keeps-rows-of-an-earlier-call:{g}", {"after": op, "rows_kept": _nrows(got[g])}))
+                    got = {k: v for k, v in got.items() if k != g}
         unknown = set(model.get("unknown", [])) - produced
         model["unknown"] = sorted(unknown)
         for g in sorted(set(got) | set(model["groups"])):
@@ -291,7 +317,7 @@ def fresh_action_acc(payload):
 
 
 def run(ctx):
-    acts = ACTIONS if ctx.thorough else ACTIONS[:21]
+    acts = ACTIONS if ctx.thorough else ACTIONS[:23]
     depth = 4 if ctx.thorough else 3
     und = 3 if ctx.thorough else 2
     covs, accs = [], []
